@@ -222,6 +222,9 @@ func (e *vlEnv) buildTx(t *vlTx, cidHash []byte) *types.Tx {
 	case "deploy":
 		body.Type = types.TxType_DEPLOY
 		body.Payload = pl
+	case "multicall":
+		body.Type = types.TxType_MULTICALL
+		body.Payload = pl
 	case "stake":
 		body.Type = types.TxType_GOVERNANCE
 		body.Recipient = []byte(types.AergoSystem)
@@ -423,7 +426,7 @@ func (e *vlEnv) installVM(scripts map[string]*vlVM) {
 	contract.StubVMX = func(kind string, cs *statedb.ContractState, payload, id []byte, v *contract.VerifVmCtx) (string, []*types.Event, string, *big.Int, error) {
 		sc := scripts[string(v.TxHash)]
 		// the real VM fails with "not found contract" when the callee has no code
-		if kind == "call" && !v.Receiver.IsContract() {
+		if kind == "call" && !v.Receiver.IsContract() && v.Sender != v.Receiver { // MULTICALL: receiver IS the sender object
 			return "", nil, "", new(big.Int), errors.New("not found contract")
 		}
 		if sc == nil {
